@@ -72,11 +72,15 @@ def run_property(mod, tier, seed, replay=None):
 
     # 3. the tie (possibly several stages: a module may derive follow-up requests from earlier answers)
     def answer_all(ls):
-        mls = [l[7:] if l.startswith("@model ") else l for l in ls]
-        m = core.run_model(mls) if ok_model else ["bad-request"] * len(ls)
+        midx = [i for i, l in enumerate(ls) if not l.startswith("@impl ")]
+        m_part = core.run_model([ls[i][7:] if ls[i].startswith("@model ") else ls[i] for i in midx]) if ok_model else ["bad-request"] * len(midx)
+        m = ["@impl"] * len(ls)
+        for j, i in enumerate(midx):
+            m[i] = m_part[j]
         idx = [i for i, l in enumerate(ls) if not l.startswith("@model ")]
-        c_part = core.run_impl([ls[i] for i in idx], "checked")
-        r_part = core.run_impl([ls[i] for i in idx], "release")
+        ils = [ls[i][6:] if ls[i].startswith("@impl ") else ls[i] for i in idx]
+        c_part = core.run_impl(ils, "checked")
+        r_part = core.run_impl(ils, "release")
         c = ["@model"] * len(ls); r = ["@model"] * len(ls)
         for j, i in enumerate(idx):
             c[i] = c_part[j]; r[i] = r_part[j]
